@@ -942,4 +942,170 @@ theorem sel3_tokenize_sp_idx_br (lead : Lead) (steps' : List StepSp) (e : IdxSp)
     sel3_tokenize_rb_lb, ← hsteps, tokenize_steps _ hp, sel3_tokenize_render_br c gs hg]
   simp [sel2Toks]
 
+/-- a spelling followed by a bracket piece: the bracket joins the last token when that is a key, and is a token
+of its own after an index -/
+theorem sel3_tokenize_sp_br (lead : Lead) (steps : List StepSp) (c : Str) (gs : List GSeg) (hp : PlainSteps steps)
+    (hne : steps ≠ []) (hg : GoodG (.br c :: gs)) :
+    tokenize (renderSp lead steps ++ sel2Render (.br c :: gs)) = toksOf steps ++ bracket c :: sel2Toks gs ∨
+    ∃ toks' name, toksOf steps = toks' ++ [name] ∧ PlainKey name ∧
+      tokenize (renderSp lead steps ++ sel2Render (.br c :: gs)) = toks' ++ (name ++ bracket c) :: sel2Toks gs := by
+  obtain ⟨steps', s, rfl⟩ : ∃ steps' s, steps = steps' ++ [s] :=
+    ⟨steps.dropLast, steps.getLast hne, (List.dropLast_concat_getLast hne).symm⟩
+  cases s with
+  | key name =>
+    right
+    exact ⟨toksOf steps', name, sel3_toksOf_snoc_key steps' name, (sel3_plainSteps_append hp).2.1,
+      sel3_tokenize_sp_key_br lead steps' name c gs hp hg⟩
+  | idx e sep =>
+    left
+    exact sel3_tokenize_sp_idx_br lead steps' e sep c gs hp hg
+
+/-! ### API level -/
+
+/-- `first` from a `return_lists = False` selection -/
+theorem sel3_api_first (cls : Cls) (kvs : List (Str × Val)) (xp : Str) (toks : List Str) (vals : List Val) (d : Val) (fuel : Nat)
+    (hq : startsWith xp ['?'] = false) (hpc : hasPathChar xp = true) (htok : tokenize xp = toks)
+    (hfind : Sel2Coll (.dict cls kvs) false (findD fuel (.dict cls kvs) [] false true toks (.at []) false slash) vals) :
+    first fuel (.dict cls kvs) xp d = (.dict cls kvs, .ok (firstOf vals d)) := by
+  obtain ⟨r0, hr0, hf0, hv0⟩ := hfind
+  rw [first, getCore_of_find cls kvs xp toks d false false fuel r0 hq hpc htok hr0]
+  cases vals with
+  | nil =>
+    have : r0.isFound = false := by simp [hf0]
+    simp only [this, Bool.false_eq_true, if_false, firstOf]
+    cases d with
+    | list c xs =>
+      cases xs with
+      | nil => rfl
+      | cons x xs => cases xs <;> rfl
+    | _ => rfl
+  | cons v vs =>
+    have hfd : r0.isFound = true := by simp [hf0]
+    have hv := hv0 hfd
+    simp only [hfd, if_true, hv, firstOf]
+    cases vs with
+    | nil =>
+      simp only [collect, Bool.not_false, List.length_singleton, decide_true, Bool.and_self, if_true, List.headD_cons]
+      cases v with
+      | list c xs =>
+        cases xs with
+        | nil => rfl
+        | cons x xs => cases xs <;> rfl
+      | _ => rfl
+    | cons v2 vs => simp [collect, unwrap1]
+
+theorem sel3_sp_noQ (cls : Cls) (kvs : List (Str × Val)) (lead : Lead) (steps : List StepSp) (c : Val) (Y : Str)
+    (hp : PlainSteps steps) (hne : steps ≠ []) (hget : stepsGet (.dict cls kvs) steps = some c) :
+    startsWith (renderSp lead steps ++ Y) ['?'] = false := by
+  cases steps with
+  | nil => exact absurd rfl hne
+  | cons s r =>
+    cases s with
+    | idx e sep => simp [stepsGet] at hget
+    | key k =>
+      obtain ⟨hk, _⟩ := hp
+      have hbody : dropSlash (renderSteps (.key k :: r)) = k ++ renderSteps r := by
+        simp [renderSteps_cons, renderStep, dropSlash]
+      obtain ⟨x, k', rfl⟩ : ∃ x k', k = x :: k' := by
+        cases k with
+        | nil => exact absurd rfl hk.ne
+        | cons x k' => exact ⟨x, k', rfl⟩
+      have hxq : x ≠ '?' := plainChar_ne_q (hk.chars x (by simp))
+      unfold renderSp; rw [hbody]
+      cases lead <;> simp [leadStr, startsWith, hxq]
+
+theorem sel3_sp_pathChar (lead : Lead) (steps : List StepSp) (Y : Str) (ch : Char) (hm : ch ∈ Y) (h : ch = '/' ∨ ch = '[') :
+    hasPathChar (renderSp lead steps ++ Y) = true :=
+  hasPathChar_of_mem (ch := ch) (by simp [hm]) h
+
+/-- **The predicate forms behind any spelling of the path to the record list**, string level -/
+theorem sel3_pred_string (cls : Cls) (kvs : List (Str × Val)) (lead : Lead) (steps : List StepSp) (k f opx op vq v : Str) (lc : Cls)
+    (rs : List Val) (d : Val) (hp : PlainSteps steps) (hne : steps ≠ [])
+    (hget : stepsGet (.dict cls kvs) steps = some (.list lc rs)) (hk : FieldKey k) (hf : PlainKey f) (hop : OpSpell opx op)
+    (hlit : LitSpell vq v) (hv : PlainLit v) (hrs : ∀ r ∈ rs, isDict r = true)
+    (hg : ∀ c kvs' kv, Val.dict c kvs' ∈ rs → lookup k kvs' = some kv → textGuard kv (.str v) = false)
+    (fuel : Nat) (hfuel : fuel ≥ 6 * steps.length + rs.length + 14) :
+    ∀ xp ∈ [renderSp lead steps ++ bracket (k ++ opx ++ vq) ++ slash ++ f,
+            renderSp lead steps ++ slash ++ k ++ bracket (sTextFn ++ opx ++ vq) ++ slash ++ ['.', '.'] ++ slash ++ f],
+      get fuel (.dict cls kvs) xp d
+        = (.dict cls kvs, .ok (if (somes (rs.map (condOutcome k f op (.str v)))).isEmpty then d
+                               else .list .n0 (somes (rs.map (condOutcome k f op (.str v)))))) ∧
+      getItem fuel (.dict cls kvs) xp
+        = (.dict cls kvs, if (somes (rs.map (condOutcome k f op (.str v)))).isEmpty then .error .IndexError
+                          else .ok (.list .n0 (somes (rs.map (condOutcome k f op (.str v)))))) ∧
+      first fuel (.dict cls kvs) xp d = (.dict cls kvs, .ok (firstOf (somes (rs.map (condOutcome k f op (.str v)))) d)) := by
+  have hs := sel3_spells_steps steps _ _ hp hget
+  have hlen := toksOf_length_le steps
+  have hsp := fun rl => sel3_pred_spelled (.dict cls kvs) rl k f opx op vq v hs hk hf hop hlit hv hrs hg fuel (by omega)
+  intro xp hxp
+  simp only [List.mem_cons, List.not_mem_nil, or_false] at hxp
+  rcases hxp with rfl | rfl
+  · have hxp : renderSp lead steps ++ bracket (k ++ opx ++ vq) ++ slash ++ f
+        = renderSp lead steps ++ sel2Render [.br (k ++ opx ++ vq), .key f] := by
+      simp [sel2Render, sel2RenderSeg, slash]
+    have hgood : GoodG [.br (k ++ opx ++ vq), .key f] := ⟨sel2_gBr_cond k opx op vq v hk.cond hop hlit hv, hf.gKey, trivial⟩
+    rw [hxp]
+    have hq := sel3_sp_noQ cls kvs lead steps _ (sel2Render [.br (k ++ opx ++ vq), .key f]) hp hne hget
+    have hpc := sel3_sp_pathChar lead steps (sel2Render [.br (k ++ opx ++ vq), .key f]) '[' (by simp [sel2Render, sel2RenderSeg, bracket])
+      (Or.inr rfl)
+    rcases sel3_tokenize_sp_br lead steps _ _ hp hne hgood with htok | ⟨toks', name, ht, hname, htok⟩
+    · apply select_api cls kvs _ _ _ d fuel hq hpc htok
+      intro rl
+      exact (hsp rl).1 _ (by simp [sel2Toks])
+    · apply select_api cls kvs _ _ _ d fuel hq hpc htok
+      intro rl
+      exact (hsp rl).2 toks' name ht hname
+  · have hxp : renderSp lead steps ++ slash ++ k ++ bracket (sTextFn ++ opx ++ vq) ++ slash ++ ['.', '.'] ++ slash ++ f
+        = renderSp lead steps ++ sel2Render [.key k, .br (sTextFn ++ opx ++ vq), .key ['.', '.'], .key f] := by
+      simp [sel2Render, sel2RenderSeg, slash]
+    have hgood : GoodG [.key k, .br (sTextFn ++ opx ++ vq), .key ['.', '.'], .key f] :=
+      ⟨hk.plain.gKey, sel2_gBr_cond sTextFn opx op vq v condKey_text hop hlit hv, sel2_gKey_up, hf.gKey, trivial⟩
+    rw [hxp]
+    have hq := sel3_sp_noQ cls kvs lead steps _ (sel2Render [.key k, .br (sTextFn ++ opx ++ vq), .key ['.', '.'], .key f]) hp hne hget
+    have hpc := sel3_sp_pathChar lead steps (sel2Render [.key k, .br (sTextFn ++ opx ++ vq), .key ['.', '.'], .key f]) '/'
+      (by simp [sel2Render, sel2RenderSeg]) (Or.inl rfl)
+    apply select_api cls kvs _ _ _ d fuel hq hpc (sel3_tokenize_sp_key lead steps _ _ hp hne hgood)
+    intro rl
+    exact (hsp rl).1 _ (by simp [sel2Toks])
+
+/-- **Chained selection behind any spelling**, string level: `get` / item access return the `return_lists = True`
+selection, `first` the unwrapped `return_lists = False` one -/
+theorem sel3_chained_string (cls : Cls) (kvs : List (Str × Val)) (lead : Lead) (steps : List StepSp)
+    (k1 opx1 op1 vq1 v1 items k2 opx2 op2 vq2 v2 f : Str) (lc : Cls) (rs : List Val) (d : Val)
+    (hp : PlainSteps steps) (hne : steps ≠ []) (hget : stepsGet (.dict cls kvs) steps = some (.list lc rs))
+    (hk1 : FieldKey k1) (hop1 : OpSpell opx1 op1) (hlit1 : LitSpell vq1 v1)
+    (hv1 : PlainLit v1) (hitems : PlainKey items) (hk2 : FieldKey k2) (hop2 : OpSpell opx2 op2) (hlit2 : LitSpell vq2 v2)
+    (hv2 : PlainLit v2) (hf : PlainKey f) (hrs : ∀ r ∈ rs, isDict r = true)
+    (hg : ∀ c kvs' kv, Val.dict c kvs' ∈ rs → lookup k1 kvs' = some kv → textGuard kv (.str v1) = false)
+    (hin : Sel3InnerOK items k2 (.str v2) rs)
+    (fuel : Nat) (hfuel : fuel ≥ 10 * steps.length + rs.length + (rs.map (sel2InnerLen items)).sum + 30) :
+    let xp := renderSp lead steps ++ bracket (k1 ++ opx1 ++ vq1) ++ slash ++ items ++ bracket (k2 ++ opx2 ++ vq2) ++ slash ++ f
+    let valsT := sel3Chained k1 op1 (.str v1) items k2 f op2 (.str v2) true rs
+    let valsF := sel3Chained k1 op1 (.str v1) items k2 f op2 (.str v2) false rs
+    get fuel (.dict cls kvs) xp d = (.dict cls kvs, .ok (if valsT.isEmpty then d else .list .n0 valsT)) ∧
+    getItem fuel (.dict cls kvs) xp = (.dict cls kvs, if valsT.isEmpty then .error .IndexError else .ok (.list .n0 valsT)) ∧
+    first fuel (.dict cls kvs) xp d = (.dict cls kvs, .ok (firstOf valsF d)) := by
+  intro xp valsT valsF
+  have hs := sel3_spells_steps steps _ _ hp hget
+  have hlen := toksOf_length_le steps
+  have hsp := fun rl => sel3_chained_spelled (.dict cls kvs) rl k1 opx1 op1 vq1 v1 items k2 opx2 op2 vq2 v2 f hs hk1 hop1 hlit1 hv1
+    hitems hk2 hop2 hlit2 hv2 hf hrs hg hin fuel (by omega)
+  have hxp : xp = renderSp lead steps ++ sel2Render [.br (k1 ++ opx1 ++ vq1), .key items, .br (k2 ++ opx2 ++ vq2), .key f] := by
+    simp [xp, sel2Render, sel2RenderSeg, slash]
+  have hgood : GoodG [.br (k1 ++ opx1 ++ vq1), .key items, .br (k2 ++ opx2 ++ vq2), .key f] :=
+    ⟨sel2_gBr_cond k1 opx1 op1 vq1 v1 hk1.cond hop1 hlit1 hv1, hitems.gKey,
+      sel2_gBr_cond k2 opx2 op2 vq2 v2 hk2.cond hop2 hlit2 hv2, hf.gKey, trivial⟩
+  have hq : startsWith xp ['?'] = false := by rw [hxp]; exact sel3_sp_noQ cls kvs lead steps _ _ hp hne hget
+  have hpc : hasPathChar xp = true := by
+    rw [hxp]; exact sel3_sp_pathChar lead steps _ '[' (by simp [sel2Render, sel2RenderSeg, bracket]) (Or.inr rfl)
+  have hts : sel2Toks [.key items, .br (k2 ++ opx2 ++ vq2), .key f] = [items ++ bracket (k2 ++ opx2 ++ vq2), f] := by
+    simp [sel2Toks]
+  rcases sel3_tokenize_sp_br lead steps _ _ hp hne hgood with htok | ⟨toks', name, ht, hname, htok⟩
+  · rw [← hxp, hts] at htok
+    have hg' := sel2_api_get cls kvs xp _ valsT d fuel hq hpc htok (hsp true).1
+    exact ⟨hg'.1, hg'.2, sel3_api_first cls kvs xp _ valsF d fuel hq hpc htok (hsp false).1⟩
+  · rw [← hxp, hts] at htok
+    have hg' := sel2_api_get cls kvs xp _ valsT d fuel hq hpc htok ((hsp true).2 toks' name ht hname)
+    exact ⟨hg'.1, hg'.2, sel3_api_first cls kvs xp _ valsF d fuel hq hpc htok ((hsp false).2 toks' name ht hname)⟩
+
 end N0.XPath
